@@ -8,7 +8,7 @@
    mode "wb" : real receive loop + real handleUpdate; view adjin only; the session teardown itself is
                not run, so after a reset all routes count as gone.
    The C06_* invariants compare the recorded observation with the PROPERTY layer of UpdateError. *)
-EXTENDS UpdateError, TraceUtil
+EXTENDS UpdateError, TraceUtil, Integers
 
 VARIABLES l, cfg, phase, cur
 tvars == <<l, cfg, phase, cur>>
@@ -66,8 +66,7 @@ Vs(p)    == SeqToSet(Obs.views[p])
 (* wb does not run the teardown: after a reset every route of the peer counts as gone *)
 St(v)    == IF cfg.mode = "wb" /\ ObsReset THEN "gone" ELSE v.st
 Named    == Ann(cfg.base) \cup Wd(cfg.base)
-NewViews == {pv \in {<<p, v>> : p \in AllPfx, v \in UNION {Vs(q) : q \in AllPfx}} :
-               pv[2] \in Vs(pv[1]) /\ St(pv[2]) = "new"}
+NewViews == UNION {{<<p, v>> : v \in {w \in Vs(p) : St(w) = "new"}} : p \in AllPfx}
 Has2(r, k) == k \in DOMAIN r
 
 NoNewFor(ps)  == \A p \in ps : \A v \in Vs(p) : St(v) # "new"
@@ -129,8 +128,9 @@ C06_WellFormedNotPenalised ==
      /\ ~ObsReset /\ Obs.code < 0
      /\ \A p \in Ann(cfg.base) : \A v \in Vs(p) :
           /\ St(v) = "new"
-          /\ v.v # "n2" => \A k \in (Kept \cap DOMAIN Good) :
-                              (k = "t5" /\ v.v = "glob" /\ Pt # "ibgp") \/ (Has2(v.attrs, k) /\ v.attrs[k] = Good[k])
+          /\ (v.v # "n2") => (\A k \in (Kept \cap DOMAIN Good) :
+                                 \/ (k = "t5" /\ v.v = "glob" /\ Pt # "ibgp")   \* stripped on ingress
+                                 \/ (Has2(v.attrs, k) /\ v.attrs[k] = Good[k]))
           /\ (v.v = "n2" /\ Has2(Good, "t99")) => Has2(v.attrs, "t99")
      /\ AllGone(Wd(cfg.base))
      /\ \A p \in AllPfx \ Named : \A v \in Vs(p) : St(v) = "old"
